@@ -310,6 +310,13 @@ def run(rep, ctx):
     ok = len(rets) == 1
     if ok:
         e = strip(kids(rets[0])[0])
+        if e["k"] in ("CallExpr", "CXXMemberCallExpr") and not call_args(e):
+            # a named predicate without arguments (InterruptPending()): its one-line body is what Stop() returns
+            from ..cfg import _pure_predicate
+            g_ = getattr(F, "_by_id", {}).get(e.get("calleeId"))
+            b_ = _pure_predicate(g_) if g_ is not None else None
+            if b_ is not None:
+                e = strip(b_)
         ok = e["k"] == "BinaryOperator" and e["op"] == "!=" and ref_name(kids(e)[0]) == "stop_" \
             and cv(kids(e)[1]) == 0
     p3.check(ok, "Stop-reads-counter", short_loc(st.loc), "Stop() returns stop_ != 0")
